@@ -36,10 +36,6 @@ inductive KeyPath (ss : Schema) (t : Name) : Name → Prop
 
 /-! ### text input: documented values -/
 
-def strOf : LVal → Text
-  | .str s => s
-  | _ => []
-
 /-- the documented value of field `f` of the item made from data line number `i` whose columns are
 `cm` (header names zipped with the line's values): the given column; else the line number for `i-id`,
 the number of whitespace-separated words of the `i-input` column for `i-length`; else nothing -/
@@ -565,6 +561,322 @@ theorem writeLoop_total_local (now : Nat) (gz : Bool)
       subst e
       exact hnd.1 (List.mem_map_of_mem (f := (·.1)) ht)
     simp [Files.set, this]
+
+/-! ### words -/
+
+theorem wc_blank_end : ∀ (s : Text) (b : Bool), IsBlank s → wordCountAux b s = 0
+  | [], _, _ => rfl
+  | c :: cs, b, h => by
+    have hc : isPyWhitespace c = true := h c (by simp)
+    simp only [wordCountAux, hc, if_true]
+    exact wc_blank_end cs false (fun c' hc' => h c' (by simp [hc']))
+
+theorem wc_blank : ∀ (s rest : Text) (b : Bool), IsBlank s → s ≠ [] →
+    wordCountAux b (s ++ rest) = wordCountAux false rest
+  | [], _, _, _, h => absurd rfl h
+  | [c], rest, b, h, _ => by
+    have hc : isPyWhitespace c = true := h c (by simp)
+    simp [wordCountAux, hc]
+  | c :: d :: cs, rest, b, h, _ => by
+    have hc : isPyWhitespace c = true := h c (by simp)
+    have ih := wc_blank (d :: cs) rest false (fun c' hc' => h c' (by simp [hc'])) (by simp)
+    simp only [List.cons_append, wordCountAux, hc, if_true] at ih ⊢
+    exact ih
+
+theorem wc_inword : ∀ (w rest : Text), (∀ c ∈ w, isPyWhitespace c = false) →
+    wordCountAux true (w ++ rest) = wordCountAux true rest
+  | [], _, _ => rfl
+  | c :: cs, rest, h => by
+    have hc : isPyWhitespace c = false := h c (by simp)
+    simp only [List.cons_append, wordCountAux, hc, Bool.false_eq_true, if_false, if_true, Nat.zero_add]
+    exact wc_inword cs rest (fun c' hc' => h c' (by simp [hc']))
+
+theorem wc_word (w rest : Text) (h : IsWord w) :
+    wordCountAux false (w ++ rest) = 1 + wordCountAux true rest := by
+  obtain ⟨hne, hc⟩ := h
+  cases w with
+  | nil => exact absurd rfl hne
+  | cons c cs =>
+    have h0 : isPyWhitespace c = false := hc c (by simp)
+    simp only [List.cons_append, wordCountAux, h0, Bool.false_eq_true, if_false]
+    rw [wc_inword cs rest (fun c' hc' => hc c' (by simp [hc']))]
+
+theorem wc_assemble : ∀ (ps : List (Text × Text)), (∀ p ∈ ps, IsWord p.1 ∧ IsBlank p.2) → SepOk ps →
+    wordCountAux false (assemble ps) = ps.length
+  | [], _, _ => rfl
+  | [(w, s)], h, _ => by
+    obtain ⟨hw, hs⟩ := h (w, s) (by simp)
+    simp only [assemble, List.append_nil, List.length_singleton]
+    rw [wc_word w s hw, wc_blank_end s true hs]
+  | (w, s) :: q :: rest, h, hsep => by
+    obtain ⟨hw, hs⟩ := h (w, s) (by simp)
+    have ih := wc_assemble (q :: rest) (fun p hp => h p (by simp [hp])) hsep.2
+    simp only [assemble, List.append_assoc] at ih ⊢
+    rw [wc_word w _ hw, wc_blank s _ true hs hsep.1, ih]
+    simp only [List.length_cons]
+    omega
+
+/-! ### text input -/
+
+theorem strKey_eq (a b : Name) : (LVal.str a.toList = LVal.str b.toList) ↔ a = b := by
+  rw [LVal.str.injEq, String.toList_inj]
+
+theorem key_iId (n : Name) : (LVal.str n.toList = iId) ↔ n = "i-id" := strKey_eq n "i-id"
+theorem key_iLength (n : Name) : (LVal.str n.toList = iLength) ↔ n = "i-length" := strKey_eq n "i-length"
+theorem key_iInput (n : Name) : (LVal.str n.toList = iInput) ↔ n = "i-input" := strKey_eq n "i-input"
+theorem key_iWf (n : Name) : (LVal.str n.toList = iWf) ↔ n = "i-wf" := strKey_eq n "i-wf"
+
+theorem mapGet_append_single (cm : List (LVal × LVal)) (k v n : LVal) :
+    mapGet (cm ++ [(k, v)]) n = if k = n then some v else mapGet cm n := by
+  induction cm with
+  | nil => simp [mapGet]
+  | cons p rest ih =>
+    obtain ⟨k', v'⟩ := p
+    simp only [List.cons_append, mapGet, ih]
+    by_cases hk : k = n
+    · simp [hk]
+    · simp [hk]
+
+theorem addId_get (withId : Bool) (cm : List (LVal × LVal)) (i : Nat) (n : LVal) :
+    mapGet (addId withId cm i) n =
+      if withId = true ∧ mapGet cm iId = none ∧ iId = n then some (.int i) else mapGet cm n := by
+  unfold addId
+  cases withId with
+  | false => simp
+  | true =>
+    cases h : mapGet cm iId with
+    | none => simp [mapGet_append_single]
+    | some v => simp
+
+theorem addLength_get (withLen : Bool) (cm : List (LVal × LVal)) (n : LVal) :
+    mapGet (addLength withLen cm) n =
+      if withLen = true ∧ mapGet cm iLength = none ∧ iLength = n then
+        (match mapGet cm iInput with
+         | some v => some (.int (wordCount (strOf v)))
+         | none => mapGet cm n)
+      else mapGet cm n := by
+  unfold addLength
+  cases withLen with
+  | false => simp
+  | true =>
+    cases h : mapGet cm iLength with
+    | some v => simp
+    | none =>
+      cases h2 : mapGet cm iInput with
+      | none => simp
+      | some v =>
+        simp only [Bool.true_and, Option.isNone_none, if_true, mapGet_append_single, true_and]
+
+theorem record_field (cm : List (LVal × LVal)) (i : Nat) (withId withLen : Bool) (f : Field)
+    (hid : f.name = "i-id" → withId = true) (hlen : f.name = "i-length" → withLen = true) :
+    (mapGet (addLength withLen (addId withId cm i)) (.str f.name.toList)).getD .none = recVal cm i f := by
+  have hne1 : iId ≠ iLength := by decide
+  have hne2 : iId ≠ iInput := by decide
+  rw [addLength_get]
+  simp only [addId_get, hne1, hne2, and_false, if_false]
+  unfold recVal
+  by_cases h1 : f.name = "i-id"
+  · have k1 : iId = LVal.str f.name.toList := ((key_iId f.name).2 h1).symm
+    have k2 : ¬ iLength = LVal.str f.name.toList := by
+      intro e; rw [← k1] at e; exact hne1 e.symm
+    simp only [hid h1, true_and, h1]
+    rw [← h1, ← k1]
+    have k3 : ¬ iLength = iId := fun e => hne1 e.symm
+    cases h : mapGet cm iId with
+    | none => simp [k3]
+    | some v => simp [k3]
+  · have k1 : ¬ iId = LVal.str f.name.toList := fun e => h1 ((key_iId f.name).1 e.symm)
+    simp only [k1, and_false, if_false, h1]
+    by_cases h2 : f.name = "i-length"
+    · have k2 : iLength = LVal.str f.name.toList := ((key_iLength f.name).2 h2).symm
+      simp only [hlen h2, true_and, h2, if_true]
+      rw [← h2, ← k2]
+      cases h : mapGet cm iLength with
+      | some v => simp
+      | none =>
+        cases h' : mapGet cm iInput with
+        | none => simp
+        | some v => simp
+    · have k2 : ¬ iLength = LVal.str f.name.toList := fun e => h2 ((key_iLength f.name).1 e.symm)
+      simp only [k2, and_false, if_false, h2]
+      cases h : mapGet cm (LVal.str f.name.toList) <;> simp
+
+theorem addId_idVal (cm : List (LVal × LVal)) (i : Nat) :
+    (mapGet (addId true cm i) iId).getD .none = idVal cm i := by
+  rw [addId_get]
+  unfold idVal
+  cases h : mapGet cm iId <;> simp
+
+/-- what one iteration of `_lines_to_records` does, in terms of the documented values -/
+theorem lineRecord_eq (fields : List Field) (colnames : List LVal) (sp : Splitter) (i : Nat)
+    (seen : List LVal) (line : Text) (cv : List LVal) (hsp : sp.split line = .ok cv)
+    (hl : cv.length = colnames.length) :
+    lineRecord fields colnames sp i seen line =
+      if fields.any (fun f => f.name = "i-id") && seen.contains (idVal (colnames.zip cv) i)
+      then .error .commandError
+      else .ok (fields.map (recVal (colnames.zip cv) i),
+                if fields.any (fun f => f.name = "i-id") then idVal (colnames.zip cv) i :: seen else seen) := by
+  unfold lineRecord
+  simp only [hsp, hl, ne_eq, not_true_eq_false, if_false]
+  have hmap : fields.map (fun f => (mapGet (addLength (fields.any (fun f => f.name = "i-length"))
+        (addId (fields.any (fun f => f.name = "i-id")) (colnames.zip cv) i)) (.str f.name.toList)).getD .none)
+      = fields.map (recVal (colnames.zip cv) i) := by
+    apply List.map_congr_left
+    intro f hf
+    apply record_field
+    · intro h
+      simp only [List.any_eq_true, decide_eq_true_eq]
+      exact ⟨f, hf, h⟩
+    · intro h
+      simp only [List.any_eq_true, decide_eq_true_eq]
+      exact ⟨f, hf, h⟩
+  rw [hmap]
+  cases hw : fields.any (fun f => decide (f.name = "i-id")) with
+  | false => simp
+  | true => simp only [addId_idVal, Bool.true_and, if_true]
+
+theorem lineRecord_inv (fields : List Field) (colnames : List LVal) (sp : Splitter) (i : Nat)
+    (seen seen' : List LVal) (line : Text) (r : List LVal)
+    (h : lineRecord fields colnames sp i seen line = .ok (r, seen')) :
+    ∃ cv, sp.split line = .ok cv ∧ cv.length = colnames.length ∧
+      r = fields.map (recVal (colnames.zip cv) i) ∧
+      (fields.any (fun f => f.name = "i-id") = true →
+          seen' = idVal (colnames.zip cv) i :: seen ∧ idVal (colnames.zip cv) i ∉ seen) ∧
+      (fields.any (fun f => f.name = "i-id") = false → seen' = seen) := by
+  cases hsp : sp.split line with
+  | error e => simp [lineRecord, hsp] at h
+  | ok cv =>
+    by_cases hl : cv.length = colnames.length
+    · rw [lineRecord_eq fields colnames sp i seen line cv hsp hl] at h
+      split at h
+      · cases h
+      · rename_i hc
+        simp only [Except.ok.injEq, Prod.mk.injEq] at h
+        refine ⟨cv, rfl, hl, h.1.symm, ?_, ?_⟩
+        · intro hw
+          simp only [hw, Bool.true_and, if_true] at h hc
+          refine ⟨h.2.symm, ?_⟩
+          simpa using hc
+        · intro hw
+          simp only [hw, Bool.false_eq_true, if_false] at h
+          exact h.2.symm
+    · simp only [lineRecord, hsp, ne_eq, hl, not_false_eq_true, if_true] at h
+      split at h <;> cases h
+
+/-- success of the loop means: one item per line, every item exactly the documented one, and (when
+the relation has an `i-id` field) pairwise different identifiers. -/
+theorem linesLoop_inv (fields : List Field) (colnames : List LVal) (sp : Splitter) :
+    ∀ (lines : List Text) (i : Nat) (seen : List LVal) (recs : List (List LVal)),
+      linesLoop fields colnames sp i seen lines = .ok recs →
+      recs = delimRecs fields colnames sp i lines ∧
+      (fields.any (fun f => f.name = "i-id") = true → seen.Nodup →
+        ∃ ids : List LVal, lineIds colnames sp i lines = ids.map some ∧ (ids.reverse ++ seen).Nodup)
+  | [], _, _, recs, h => by
+    simp only [linesLoop, Except.ok.injEq] at h
+    subst h
+    exact ⟨rfl, fun _ hs => ⟨[], rfl, by simpa using hs⟩⟩
+  | l :: ls, i, seen, recs, h => by
+    simp only [linesLoop] at h
+    split at h
+    · cases h
+    · rename_i r seen' hr
+      split at h
+      · cases h
+      · rename_i rs hrs
+        simp only [Except.ok.injEq] at h
+        subst h
+        obtain ⟨cv, h1, _, h3, h4, _⟩ := lineRecord_inv fields colnames sp i seen seen' l r hr
+        obtain ⟨ih1, ih2⟩ := linesLoop_inv fields colnames sp ls (i + 1) seen' rs hrs
+        refine ⟨by simp [delimRecs, h1, h3, ih1], ?_⟩
+        intro hw hs
+        obtain ⟨e1, e2⟩ := h4 hw
+        have hs' : seen'.Nodup := by
+          rw [e1]
+          exact List.nodup_cons.mpr ⟨e2, hs⟩
+        obtain ⟨ids, hi1, hi2⟩ := ih2 hw hs'
+        refine ⟨idVal (colnames.zip cv) i :: ids, by simp [lineIds, h1, hi1], ?_⟩
+        rw [e1] at hi2
+        simpa using hi2
+
+/-- plain sentence lines: the column map of a line and its documented values -/
+theorem recVal_plain (i : Nat) (line : Text) (f : Field) :
+    recVal [(iWf, .int (plainWf line)), (iInput, .str (plainText line))] i f = plainVal i line f := by
+  unfold recVal plainVal
+  by_cases h1 : f.name = "i-wf"
+  · simp [mapGet, iInput, iWf, h1]
+  · have k1 : ¬ iWf = LVal.str f.name.toList := fun e => h1 ((key_iWf f.name).1 e.symm)
+    by_cases h2 : f.name = "i-input"
+    · simp [mapGet, iInput, h2]
+    · have k2 : ¬ iInput = LVal.str f.name.toList := fun e => h2 ((key_iInput f.name).1 e.symm)
+      simp [mapGet, k1, k2, h1, h2, strOf]
+
+theorem plain_split (line : Text) :
+    Splitter.plain.split line = .ok [.int (plainWf line), .str (plainText line)] := by
+  cases line with
+  | nil => rfl
+  | cons c cs =>
+    by_cases hc : c = '*'
+    · subst hc; rfl
+    · have e1 : plainWf (c :: cs) = 1 := by
+        unfold plainWf
+        split
+        · rename_i heq
+          simp only [List.cons.injEq] at heq
+          exact absurd heq.1 hc
+        · rfl
+      have e2 : plainText (c :: cs) = c :: cs := by
+        unfold plainText
+        split
+        · rename_i heq
+          simp only [List.cons.injEq] at heq
+          exact absurd heq.1 hc
+        · rfl
+      rw [e1, e2]
+      simp only [Splitter.split]
+      split
+      · rename_i heq
+        simp only [List.cons.injEq] at heq
+        exact absurd heq.1 hc
+      · rfl
+
+/-- plain sentence lines never fail: the identifiers are the line numbers, all fresh -/
+theorem linesLoop_plain (fields : List Field) :
+    ∀ (lines : List Text) (i : Nat) (seen : List LVal), (∀ v ∈ seen, ∃ j, j < i ∧ v = .int j) →
+      linesLoop fields [iWf, iInput] .plain i seen lines = .ok (plainRecs fields i lines)
+  | [], _, _, _ => rfl
+  | l :: ls, i, seen, hseen => by
+    have hid : idVal ([iWf, iInput].zip [LVal.int (plainWf l), LVal.str (plainText l)]) i = .int i := by
+      have a : ¬ iInput = iId := by decide
+      have b : ¬ iWf = iId := by decide
+      simp [idVal, mapGet, a, b]
+    have hfresh : seen.contains (LVal.int i) = false := by
+      cases hc : seen.contains (LVal.int i) with
+      | false => rfl
+      | true =>
+        simp only [List.contains_iff_mem] at hc
+        obtain ⟨j, hj, e⟩ := hseen _ hc
+        simp only [LVal.int.injEq] at e
+        omega
+    simp only [linesLoop]
+    rw [lineRecord_eq fields [iWf, iInput] .plain i seen l _ (plain_split l) (by simp)]
+    simp only [hid, hfresh, Bool.and_false, Bool.false_eq_true, if_false]
+    have hmap : fields.map (recVal ([iWf, iInput].zip [LVal.int (plainWf l), LVal.str (plainText l)]) i)
+        = fields.map (plainVal i l) := by
+      apply List.map_congr_left
+      intro f _
+      exact recVal_plain i l f
+    rw [hmap]
+    have ih := linesLoop_plain fields ls (i + 1)
+      (if fields.any (fun f => f.name = "i-id") then LVal.int i :: seen else seen) (by
+        intro v hv
+        split at hv
+        · rcases List.mem_cons.mp hv with e | e
+          · exact ⟨i, by omega, e⟩
+          · obtain ⟨j, hj, e'⟩ := hseen v e
+            exact ⟨j, by omega, e'⟩
+        · obtain ⟨j, hj, e'⟩ := hseen v hv
+          exact ⟨j, by omega, e'⟩)
+    simp only [ih, plainRecs]
 
 end L
 
